@@ -9,8 +9,11 @@ CONSTANTS Emit, PreLen, TransLen
 
 D(str) == CASE str = "0" -> <<48>> [] str = "1" -> <<49>> [] str = "2" -> <<50>> [] str = "10" -> <<49,48>>
             [] str = "A" -> <<65>> [] str = "a" -> <<97>> [] str = "a0" -> <<97,48>> [] str = "x" -> <<120>>
+            [] str = "B" -> <<66>> [] str = "-" -> <<45>>
 Nums   == {D("0"), D("1"), D("2"), D("10")}
-Idents == {D("0"), D("2"), D("10"), D("A"), D("a"), D("a0")}
+\* "B" sorts between "A" and "a" in ASCII but after "a" when case is folded; "-" sorts before the digits as text
+\* but, being alphanumeric, above every numeric identifier
+Idents == {D("0"), D("2"), D("10"), D("A"), D("a"), D("a0"), D("B"), D("-")}
 Lists(n) == UNION { [1..k -> Idents] : k \in 0..n }
 Mk(ma, mi, pa, pre) == [major |-> ma, minor |-> mi, patch |-> pa, pre |-> pre, build |-> <<>>]
 ReleaseOnly == { Mk(a, b, c, <<>>) : a \in Nums, b \in Nums, c \in Nums }
